@@ -512,6 +512,13 @@ def gen_use(quick, seed):
                     scripts[which] = "\n".join(body)
                     out.append(ps("use:%s:%d:%s:%d" % (which, pos, iname, n), scripts["main"], pt=STD_PT,
                                   extra={"b.p": scripts["b"], "c.p": scripts["c"]}, tag="exit()/error at every position of a call tree"))
+    # use() written elsewhere than as a statement of its own: left unspecified by the model (unspec-use-position), the implementation
+    # must still not crash
+    xb = {"b.p": "probe(8)\nadd_key(kb, 1)\nif fi { exit() }\nprobe(9)", "c.p": "q = 1 + nil"}
+    for i, t in enumerate(['q = use("b.p")\nprobe(q, kb)', 'q = [pv(1), use("b.p"), pv(2)]', 'if use("b.p") { probe(1) } else { probe(2) }',
+                           'probe(pv(1), use("b.p"), pv(2))', 'for ; use("b.p"); { probe(3)\nbreak }', 'q = [pv(1), use("c.p"), pv(2)]',
+                           'for v in [use("b.p")] { probe(v) }', '(use("b.p"))', 'm = {"k": use("b.p")}', 'for i = 0; i < 2; use("b.p") { i = i + 1 }']):
+        out.append(ps("use:expr:%d" % i, "probe(0)\n" + t + "\nprobe(7)", pt=STD_PT, extra=xb, tag="use() in expression position (unspecified)"))
     out.append(ps("use:twice", 'use("b.p")\nuse("b.p")\nprobe(n)', pt=STD_PT, extra={"b.p": "add_key(n, 1)\nprobe(n)"}, tag="use twice"))
     out.append(ps("use:loop", 'for i = 0; i < 3; i = i + 1 {\nuse("b.p")\n}\nprobe(i)', pt=STD_PT,
                   extra={"b.p": "for j in [1, 2] {\nif j == 2 { exit() }\nprobe(j)\n}\nprobe(99)"}, tag="use in a loop, exit in callee loop"))
